@@ -12,6 +12,7 @@ import (
 	"sort"
 	"strconv"
 	"strings"
+	"text/template"
 	"time"
 
 	"github.com/CloudyKit/jet/v6"
@@ -185,10 +186,13 @@ func (c *concretizer) stmt(s xStmt) {
 	}
 	switch s.Op {
 	case "text":
-		c.w("[" + s.ID + "]")
+		c.w(textOf(s.ID, c.html))
 	case "print":
-		if s.F == "raw" {
-			c.w("{{ " + c.expr(s.E) + " | raw }}")
+		if s.G == "argfail" {
+			// SafeWriter called with arguments, the second of which fails: {{ raw: x, fail() }}
+			c.w("{{ " + s.F + ": " + c.expr(s.E) + ", fail() }}")
+		} else if s.F != "" {
+			c.w("{{ " + c.expr(s.E) + " | " + s.F + " }}")
 		} else {
 			c.w("{{ " + c.expr(s.E) + " }}")
 		}
@@ -293,6 +297,12 @@ func (c *concretizer) stmt(s xStmt) {
 			c.w("{{ apiResolve(" + strconv.Quote(s.N) + ") }}")
 		case "Context":
 			c.w("{{ apiContext() }}")
+		case "YieldBlock":
+			if s.E2.K == "none" {
+				c.w("{{ apiYieldBlock(" + strconv.Quote(s.N) + ") }}")
+			} else {
+				c.w("{{ apiYieldBlock(" + strconv.Quote(s.N) + ", " + c.expr(s.E2) + ") }}")
+			}
 		default:
 			c.w("{{ api" + s.F + "(" + strconv.Quote(s.N) + ", " + c.expr(s.E) + ") }}")
 		}
@@ -425,6 +435,9 @@ func refValue(v string) (interface{}, bool) {
 }
 
 func atomValue(v string) interface{} {
+	if strings.HasPrefix(v, "val:") {
+		return c01Value(v[4:])
+	}
 	if strings.HasPrefix(v, "ref:") {
 		if v == "ref:niliface" {
 			return (error)(nil)
@@ -449,7 +462,7 @@ func atomValue(v string) interface{} {
 
 // classes whose error is raised by a called Go function (no file:line by contract)
 var calleeClasses = map[string]bool{"func": true, "template-exec": true, "yieldarg": true, "len-kind": true, "ints-range": true,
-	"argcount-jetfunc": true, "underscore-jetfunc": true}
+	"argcount-jetfunc": true, "underscore-jetfunc": true, "api-assign": true, "api-block": true}
 
 type xObs struct {
 	Out   string `json:"out"`
@@ -470,17 +483,22 @@ func sortedTokens(s string) string {
 }
 
 type xWorld struct {
-	multiset bool
-	set      *jet.Set
-	where    map[string][2]string
-	colls    []xExpr
-	src      map[string]string
+	multiset   bool
+	joinPieces bool
+	set        *jet.Set
+	where      map[string][2]string
+	colls      []xExpr
+	src        map[string]string
 }
 
 func xBuild(c *xCase, esc jet.SafeWriter, useEsc bool) (*xWorld, error) {
+	return xBuildOpt(c, esc, useEsc, false)
+}
+
+func xBuildOpt(c *xCase, esc jet.SafeWriter, useEsc bool, html bool) (*xWorld, error) {
 	loader := jet.NewInMemLoader()
 	w := &xWorld{where: map[string][2]string{}, src: map[string]string{}}
-	cz := &concretizer{where: w.where}
+	cz := &concretizer{where: w.where, html: html}
 	for _, t := range c.Ts {
 		cz.b.Reset()
 		cz.file = "/" + t.Name + ".jet"
@@ -502,6 +520,11 @@ func xBuild(c *xCase, esc jet.SafeWriter, useEsc bool) (*xWorld, error) {
 	}
 	set := jet.NewSet(loader, opts...)
 	set.AddGlobal("fail", func() string { panic(errors.New("injected failure")) })
+	set.AddGlobal("usersw", jet.SafeWriter(func(w io.Writer, b []byte) {
+		w.Write([]byte("{"))
+		w.Write(b)
+		w.Write([]byte("}"))
+	}))
 	set.AddGlobal("gst", gStruct{Name: "n"})
 	set.AddGlobal("gnilp", (*gStruct)(nil))
 	set.AddGlobal("gsl", []string{"a", "b", "c"})
@@ -533,6 +556,14 @@ func xBuild(c *xCase, esc jet.SafeWriter, useEsc bool) (*xWorld, error) {
 	})
 	set.AddGlobalFunc("apiResolve", func(a jet.Arguments) reflect.Value {
 		return a.Runtime().Resolve(a.Get(0).String())
+	})
+	set.AddGlobalFunc("apiYieldBlock", func(a jet.Arguments) reflect.Value {
+		var cx interface{}
+		if a.NumOfArguments() > 1 {
+			cx = a.Get(1).Interface()
+		}
+		a.Runtime().YieldBlock(a.Get(0).String(), cx)
+		return reflect.Value{}
 	})
 	set.AddGlobalFunc("apiContext", func(a jet.Arguments) reflect.Value {
 		return a.Runtime().Context()
@@ -584,19 +615,51 @@ func (w *xWorld) execute(r xRun) (o xObs) {
 	return
 }
 
+// literal text of a text statement; in C01 mode it carries HTML-special bytes
+func textOf(id string, html bool) string {
+	if html {
+		return "<" + id + "&\"'>"
+	}
+	return "[" + id + "]"
+}
+
+var htmlTexts = false
+
 func renderChunks(chs []string, esc func(string) string) string {
 	var b strings.Builder
 	for _, c := range chs {
 		switch {
 		case strings.HasPrefix(c, "T:"):
-			b.WriteString("[" + c[2:] + "]")
+			b.WriteString(textOf(c[2:], htmlTexts))
 		case strings.HasPrefix(c, "V:"):
 			b.WriteString(esc(c[2:]))
 		case strings.HasPrefix(c, "R:"):
-			b.WriteString(c[2:])
+			rest := c[2:]
+			i := strings.Index(rest, ":")
+			b.WriteString(stageRender(rest[:i], rest[i+1:]))
 		}
 	}
 	return b.String()
+}
+
+// what a SafeWriter stage writes for a value (the stage's own escaping of the printed form)
+func stageRender(stage, v string) string {
+	p := printedForm(v)
+	switch stage {
+	case "raw", "unsafe":
+		return p
+	case "safeHtml":
+		var b bytes.Buffer
+		template.HTMLEscape(&b, []byte(p))
+		return b.String()
+	case "safeJs":
+		var b bytes.Buffer
+		template.JSEscape(&b, []byte(p))
+		return b.String()
+	case "usersw":
+		return "{" + p + "}"
+	}
+	return "?" + stage
 }
 
 // xCompare checks one execution against the specification's observation.
@@ -608,6 +671,10 @@ func xCompare(w *xWorld, exp xResult, o xObs, esc func(string) string) (bool, st
 		return false, "load", o.Err
 	}
 	want := renderChunks(exp.Out, esc)
+	if w.joinPieces {
+		j := func(x string) string { return strings.ReplaceAll(strings.ReplaceAll(x, "»«", ""), "}{", "") }
+		o.Out, want = j(o.Out), j(want)
+	}
 	if w.multiset && sortedTokens(o.Out) == sortedTokens(want) {
 		want = o.Out
 	}
@@ -658,4 +725,137 @@ func xReplayWith(tag string) func(i int, raw json.RawMessage) Result {
 
 func init() {
 	commands["replay-exec"] = func(a []string) int { return replayLoop(a[0], a[1], xReplayWith("")) }
+}
+
+// ---- C01: value catalogue with HTML-special bytes ------------------------------------------
+
+type c01Stringer struct{ s string }
+
+func (x c01Stringer) String() string { return x.s }
+
+type c01Err struct{}
+
+func (c01Err) Error() string { return "err<&>'\"" }
+
+type c01Struct struct {
+	A string
+	B int
+}
+
+var c01PtrTarget = "<ptr&'\">"
+var c01Long = strings.Repeat("x", 4090) + "<&>'\"<&>" + strings.Repeat("y", 4100) + "<"
+
+// c01Value: Go value for an abstract "val:<shape>" atom; printedForm: what printing it yields
+func c01Value(shape string) interface{} {
+	switch shape {
+	case "str":
+		return "<a href=\"x\">&'</a>"
+	case "int":
+		return 42
+	case "float":
+		return 1.5
+	case "bool":
+		return true
+	case "bytes":
+		return []byte("<b>&\"'</b>")
+	case "stringer":
+		return c01Stringer{"<str&'\">"}
+	case "error":
+		return c01Err{}
+	case "ptrstr":
+		return &c01PtrTarget
+	case "struct":
+		return c01Struct{A: "<s&>", B: 1}
+	case "longstr":
+		return c01Long
+	case "istr":
+		return []interface{}{"<i&>"}[0]
+	}
+	return nil
+}
+
+func printedForm(v string) string {
+	if !strings.HasPrefix(v, "val:") {
+		return v
+	}
+	switch v[4:] {
+	case "str":
+		return "<a href=\"x\">&'</a>"
+	case "int":
+		return "42"
+	case "float":
+		return "1.5"
+	case "bool":
+		return "true"
+	case "bytes":
+		return "<b>&\"'</b>"
+	case "stringer":
+		return "<str&'\">"
+	case "error":
+		return "err<&>'\""
+	case "ptrstr":
+		return c01PtrTarget
+	case "struct":
+		return "{<s&> 1}"
+	case "longstr":
+		return c01Long
+	case "istr":
+		return "<i&>"
+	}
+	return "?"
+}
+
+func c01Replay(i int, raw json.RawMessage) Result {
+	var v xVec
+	if err := json.Unmarshal(raw, &v); err != nil {
+		return Result{Detail: "bad vector: " + err.Error()}
+	}
+	htmlTexts = true
+	defer func() { htmlTexts = false }()
+	key := string(raw)
+	modes := []struct {
+		name string
+		use  bool
+		sw   jet.SafeWriter
+		esc  func(string) string
+	}{
+		{"custom", true, bracketEscaper, func(s string) string { return "«" + printedForm(s) + "»" }},
+		{"html", false, nil, func(s string) string {
+			var b bytes.Buffer
+			template.HTMLEscape(&b, []byte(printedForm(s)))
+			return b.String()
+		}},
+		{"none", true, nil, func(s string) string { return printedForm(s) }},
+	}
+	for _, m := range modes {
+		w, err := xBuildOpt(&v.Case, m.sw, m.use, true)
+		if err != nil {
+			return Result{Detail: "harness: " + err.Error()}
+		}
+		for k, r := range v.Case.Runs {
+			o := w.execute(r)
+			// the printer hands a long value to the escaper in several Writes; a bracketing
+			// escaper then brackets each piece: piece boundaries are not compared for that shape
+			w.joinPieces = strings.Contains(v.Tag, "|longstr|")
+			ok, kind, why := xCompare(w, v.Results[k], o, m.esc)
+			if !ok {
+				t := strings.Split(v.Tag, "|")
+				sig := map[string]interface{}{"kind": kind, "tag": v.Tag, "escaper": m.name, "shape": t[1], "stage": t[2]}
+				return Result{Sig: sig, Key: key, Observed: o, Expected: v.Results[k],
+					Detail: fmt.Sprintf("escaper=%s run %d: %s\nsources: %v", m.name, k, truncate(why, 1500), w.src)}
+			}
+		}
+	}
+	return Result{OK: true, Key: key}
+}
+
+func truncate(s string, n int) string {
+	if len(s) > n {
+		return s[:n] + "...(" + strconv.Itoa(len(s)) + " bytes)"
+	}
+	return s
+}
+
+func init() {
+	commands["replay-C01"] = func(a []string) int { return replayLoop(a[0], a[1], c01Replay) }
 }
